@@ -61,8 +61,21 @@ IsEnumTy(ty) == ty \in {"e2", "e2x", "e2u", "io", "iox", "e2m", "e2mu", "e2a", "
 (* decoding input (C09): "bstr" &str, "bslice" &ByteSlice, "bu8" &[u8] with = minicbor::bytes (all three also implicitly, *)
 (* whatever the n / b spelling), "cowb" Cow<str> marked b (decoded as Cow::Borrowed); "cown" Cow<str> marked n owns.      *)
 TextTys  == {"str", "bstr", "cowb", "cown"}
-BytesTys == {"bytes", "bslice", "bu8"}
-MustBorrow(ty) == ty \in {"bstr", "bslice", "bu8", "cowb"}
+BytesTys == {"bytes", "bslice", "bu8", "cowbu8"}          \* "cowbu8": Cow<[u8]> marked b, with = minicbor::bytes (decoded as Cow::Borrowed)
+MustBorrow(ty) == ty \in {"bstr", "bslice", "bu8", "cowb", "cowbu8"}
+(* "any": a field whose value a newer writer produced by means unknown to this specification - any well-formed item.  Only   *)
+(* writer schemas have it, and only readers that do not know the field ever see it: it must be ignored whatever it is (C10). *)
+AnyItems == << <<27, 255, 255, 255, 255, 255, 255, 255, 255>>,            \* 2^64 - 1
+               <<59, 255, 255, 255, 255, 255, 255, 255, 255>>,            \* -2^64
+               <<27, 128, 0, 0, 0, 0, 0, 0, 0>>,                          \* 2^63
+               <<193, 26, 95, 94, 16, 0>>,                                 \* 1(1600000000)
+               <<159, 1, 191, 97, 97, 159, 255, 255, 255>>,                \* [_ 1, {_ "a": [_ ]}]
+               <<127, 97, 97, 96, 98, 98, 99, 255>>,                       \* (_ "a", "", "bc")
+               <<95, 65, 1, 64, 255>>,                                     \* (_ h'01', h'')
+               <<249, 0, 1>>, <<248, 255>>, <<247>>,                       \* half, simple(255), undefined
+               <<216, 42, 130, 1, 162, 1, 2, 3, 152, 1, 246>>,             \* 42([1, {1: 2, 3: [null]}]) with a non-minimal array head
+               <<251, 127, 248, 0, 0, 0, 0, 0, 1>>,                        \* a NaN with payload
+               <<162, 24, 100, 130, 1, 2, 130, 3, 4, 161, 0, 0>> >>        \* {100: [1, 2], [3, 4]: {0: 0}}
 \* ---- values ----------------------------------------------------------------------------
 FV(some, n, b, sub) == [some |-> some, n |-> n, b |-> b, sub |-> sub]
 None == FV(FALSE, 0, <<>>, <<>>)
@@ -91,6 +104,7 @@ EncFieldF(f, x, fr) ==
      [] f.ty \in TextTys  -> PreferredHead(3, FromNat(Len(x.b))) \o x.b
      [] f.ty \in BytesTys -> PreferredHead(2, FromNat(Len(x.b))) \o x.b
      [] f.ty = "cu"    -> Uint(x.n + 1000)
+     [] f.ty = "any"   -> AnyItems[x.n]
      [] OTHER          -> DocEncP(Nested(f.ty), x.sub, [NoPt EXCEPT !.fr = fr])
 Live(fields) == { i \in 1..Len(fields) : ~fields[i].skip }
 Present(fields, v) == { i \in Live(fields) : ~IsNil(fields[i], v[i]) }
